@@ -116,7 +116,17 @@ func TestC10_StateMachine(t *testing.T) {
 		junk := func() payload {
 			o := g.Pick("junkOrig", n)
 			var d []byte
-			switch g.Int("junkKind", 0, 4) {
+			switch g.Int("junkKind", 0, 7) {
+			case 5, 6, 7: // a well-formed complaint against a dealer, from another participant
+				target := dealer
+				if proto == sim.JointFeldman {
+					target = g.Pick("complaintAgainst", n)
+				}
+				if o == me {
+					o = (o + 1) % n
+				}
+				d = []byte{sim.TagComplaint, byte(target)}
+				return payload{o, true, d}
 			case 0:
 				d = []byte{}
 			case 1:
